@@ -135,7 +135,7 @@ class Hostile:
         if c == 6 and isinstance(good, str) and len(good) >= 4: return 'minus1', good[:-2]
         if c == 7 and isinstance(good, str) and len(good) >= 2:
             b = bytearray.fromhex(good); i = r.randrange(len(b)); b[i] ^= 1 << r.randrange(8); return 'bitflip', b.hex()
-        return 'size', s.blob(r.choice(SIZES))
+        n = r.choice(SIZES); return ('0' if n == 0 else 'size'), s.blob(n)
     def outbuf(s):
         r = s.rnd; c = r.randrange(6)
         if c == 0: return 'null', None
@@ -313,6 +313,8 @@ class Gen(Hostile):
         r = s.rnd; kind = kind or r.choice(s.K.kinds())
         t = s.K.template(kind, label='fz-%d' % s.count, token=(r.random() < 0.15 if token is None else token), private=r.random() < 0.3, sensitive=r.random() < 0.3, extractable=r.random() < 0.8)
         return kind, s.T(t)
+    def bigint_types(s):
+        return {s.ck[a] for a in ('CKA_MODULUS', 'CKA_PUBLIC_EXPONENT', 'CKA_PRIVATE_EXPONENT', 'CKA_PRIME_1', 'CKA_PRIME_2', 'CKA_EXPONENT_1', 'CKA_EXPONENT_2', 'CKA_COEFFICIENT', 'CKA_PRIME', 'CKA_SUBPRIME', 'CKA_BASE', 'CKA_VALUE')}
     def nested(s, depth=0):
         r = s.rnd; n = r.choice([0, 1, 2, 5])
         items = []
@@ -345,7 +347,7 @@ class Gen(Hostile):
             i = pickidx(); e = t[i]
             if 'bool' in e: t[i] = r.choice([{'t': e['t'], 'bool': True, 'len': 0}, {'t': e['t'], 'hex': s.blob(r.choice([2, 4, 8]))}, {'t': e['t'], 'bool': r.choice([2, 0x7f, 0xff])}])
             elif 'ulong' in e: t[i] = r.choice([{'t': e['t'], 'ulong': e['ulong'], 'len': r.choice([0, 1, 4, 7])}, {'t': e['t'], 'hex': s.blob(r.choice([9, 16, 100]))}])
-            elif 'hex' in e: n = r.choice([0, 1, 3, 4, 8, 4096, 65536]); t[i] = {'t': e['t'], 'hex': s.blob(n)}
+            elif 'hex' in e: n = r.choice([0, 1, 3, 4, 8, 600] if e['t'] in s.bigint_types() else [0, 1, 3, 4, 8, 4096, 65536]); t[i] = {'t': e['t'], 'hex': s.blob(n)}
             elif 'mechs' in e: t[i] = {'t': e['t'], 'hex': s.blob(r.choice([1, 7, 9, 12]))}
             else: t[i] = {'t': e['t'], 'hex': s.blob(8)}
             return 'wrong-size', t
